@@ -82,6 +82,22 @@ type c13Run struct {
 	verb                bool
 	os                  []*c13Oracle
 	slashes, lifecycles int
+	joined              map[string]uint64 // model: height at which the oracle last came online (bond or rejoin)
+	wasOnline           map[string]bool
+	valSlashed          bool // a validator was slashed: share/token rate != 1, share conversions truncate
+}
+
+// same compares two stake totals. Once a validator has been slashed the SDK's share arithmetic
+// truncates on every conversion (delegate, undelegate, redelegate: at most one base unit, 1e-18 FX,
+// each; a total that mixes truncated share values and exact unbonding balances moves by that much in either direction); that dust is staking-module behaviour, not part of this property.
+func (r *c13Run) same(before, after sdkmath.Int) bool {
+	if after.Equal(before) {
+		return true
+	}
+	if !r.valSlashed {
+		return false
+	}
+	return before.Sub(after).Abs().LTE(sdkmath.NewInt(2))
 }
 
 func (r *c13Run) logf(f string, a ...interface{}) {
@@ -119,6 +135,7 @@ func (r *c13Run) rawPrefix(prefix []byte, fn func(k, v []byte)) {
 
 // checkIndexes: records <-> bridger index <-> external index form a bijection.
 func (r *c13Run) checkIndexes(what string) {
+	r.trackJoins()
 	r.res.Count("index_checks", 1)
 	cdc := r.c.App.AppCodec()
 	records := map[string]crosschaintypes.Oracle{}
@@ -170,6 +187,28 @@ func (r *c13Run) checkIndexes(what string) {
 		}
 		if o.Online && (o.DelegateAmount.LT(threshold) || o.DelegateAmount.GT(max)) {
 			r.res.Violate("C13/stake-out-of-bounds", "%s: online oracle %s has recorded stake %s outside [%s, %s]", what, addr, o.DelegateAmount, threshold, max)
+		}
+	}
+}
+
+// trackJoins keeps the model's "joined at" height: the block in which an oracle record appeared
+// online or an offline oracle came back online. It is the reference for "created after it joined";
+// the stored start height is what is being checked, not what is trusted.
+func (r *c13Run) trackJoins() {
+	if r.joined == nil {
+		r.joined, r.wasOnline = map[string]uint64{}, map[string]bool{}
+	}
+	seen := map[string]bool{}
+	for _, o := range r.b.K.GetAllOracles(r.c.Ctx, false) {
+		seen[o.OracleAddress] = true
+		if o.Online && !r.wasOnline[o.OracleAddress] {
+			r.joined[o.OracleAddress] = uint64(r.c.Height)
+		}
+		r.wasOnline[o.OracleAddress] = o.Online
+	}
+	for a := range r.wasOnline {
+		if !seen[a] {
+			delete(r.wasOnline, a)
 		}
 	}
 }
@@ -255,7 +294,7 @@ func (r *c13Run) block(dt time.Duration) bool {
 			r.res.Count("slashes_observed", 1)
 			justified := false
 			for _, p := range pend {
-				if p.height+r.spec.Window <= h && uint64(b.StartHeight) <= p.height && !p.conf[b.ExternalAddress] {
+				if p.height+r.spec.Window <= h && r.joined[b.OracleAddress] <= p.height && !p.conf[b.ExternalAddress] {
 					justified = true
 				}
 			}
@@ -265,8 +304,8 @@ func (r *c13Run) block(dt time.Duration) bool {
 					ps = append(ps, fmt.Sprintf("%s#%s@%d conf=%v", p.kind, p.id, p.height, p.conf[b.ExternalAddress]))
 				}
 				sort.Strings(ps)
-				r.res.Violate("C13/slashed-without-missed-signing", "oracle %s (start height %d) was taken offline in end block %d although no oracle set / batch / bridge call created after it joined was left unconfirmed by it for the signed window %d; pending: %v",
-					o.OracleAddress, b.StartHeight, h, r.spec.Window, ps)
+				r.res.Violate("C13/slashed-without-missed-signing", "oracle %s (joined at height %d, stored start height %d) was taken offline in end block %d although no oracle set / batch / bridge call created after it joined was left unconfirmed by it for the signed window %d; pending: %v",
+					o.OracleAddress, r.joined[b.OracleAddress], b.StartHeight, h, r.spec.Window, ps)
 			}
 		}
 	}
@@ -383,7 +422,7 @@ func (r *c13Run) run() {
 					res := c.Msg(&crosschaintypes.MsgReDelegate{ChainName: spec.Chain, OracleAddress: o.Oracle.Bech32(), ValidatorAddress: c.Vals[rng.IntN(len(c.Vals))].Operator.Val().String()})
 					if res.OK() {
 						r.res.Count("redelegations", 1)
-						if after := r.total(o); !after.Equal(before) {
+						if after := r.total(o); !r.same(before, after) {
 							r.res.Violate("C13/redelegate-changed-stake", "re-delegation changed the stake held for oracle %d from %s to %s", i, before, after)
 						}
 					}
@@ -412,20 +451,36 @@ func (r *c13Run) run() {
 					if rec2.Online {
 						r.res.Violate("C13/removed-oracle-online", "oracle %d still online after governance removed it", i)
 					}
-					if after := r.total(o); !after.Equal(stake) {
+					if after := r.total(o); !r.same(stake, after) {
 						r.res.Violate("C13/removal-changed-stake", "governance removal changed the FX held for oracle %d from %s to %s", i, stake, after)
 					}
 				}
 			}
-		case x < 62: // unbond attempt (too early unless matured)
+		case x < 59: // unbond attempt (too early unless matured)
 			if found && m.removed && !m.gone {
 				r.unbond(i, false)
+			}
+		case x < 62: // governance re-admits a removed oracle; a later add-delegate brings it back online
+			if found && m.removed && !m.gone {
+				keep := []string{o.Oracle.Bech32()}
+				for j, q := range r.os {
+					if j != i && j < spec.N && !q.removed {
+						keep = append(keep, q.o.Oracle.Bech32())
+					}
+				}
+				res := c.Msg(&crosschaintypes.MsgUpdateChainOracles{ChainName: spec.Chain, Oracles: keep, Authority: chain.GovAuthority()})
+				r.logf("gov re-admit o%d: %s", i, res.ErrString())
+				if res.OK() {
+					m.removed = false
+					r.res.Count("gov_readmissions", 1)
+				}
 			}
 		case x < 66: // validator double sign
 			if spec.ValSlash && rng.IntN(3) == 0 {
 				vi := 1 + rng.IntN(len(c.Vals)-1)
 				if !c.Absent[vi] {
 					c.DoubleSign(vi)
+					r.valSlashed = true
 					r.res.Count("validator_slashes", 1)
 				}
 			}
@@ -461,7 +516,7 @@ func (r *c13Run) run() {
 		if m.paidIn.IsZero() {
 			continue
 		}
-		if left := r.total(m.o); left.IsPositive() {
+		if left := r.total(m.o); left.IsPositive() && !r.same(left, sdkmath.ZeroInt()) {
 			l, d, u := r.stakeOf(m.o)
 			r.res.Violate("C13/stake-stranded", "oracle %d has no record any more but %s FX of its stake are left at its keyless delegate address (liquid %s, delegated %s, unbonding %s)", i, left, l, d, u)
 		}
@@ -482,7 +537,7 @@ func (r *c13Run) bond(i int, stake sdkmath.Int) {
 	paid := balBefore.Sub(c.Balance(c.Ctx, m.o.Oracle.Acc(), fxtypes.DefaultDenom))
 	grown := r.total(m.o).Sub(heldBefore)
 	rec, _ := r.b.K.GetOracle(c.Ctx, m.o.Oracle.Acc())
-	if !paid.Equal(stake) || !grown.Equal(stake) || !rec.DelegateAmount.Equal(stake) {
+	if !paid.Equal(stake) || !r.same(stake, grown) || !rec.DelegateAmount.Equal(stake) {
 		r.res.Violate("C13/bond-accounting", "bond of %s: oracle paid %s, stake held for it grew by %s, recorded %s", stake, paid, grown, rec.DelegateAmount)
 	}
 	m.paidIn = m.paidIn.Add(stake)
@@ -509,7 +564,7 @@ func (r *c13Run) addDelegate(i int, rec crosschaintypes.Oracle, extra sdkmath.In
 	if slash.GT(rec.DelegateAmount) {
 		r.res.Violate("C13/penalty-exceeds-stake", "penalty %s exceeds the recorded stake %s", slash, rec.DelegateAmount)
 	}
-	if !paid.Equal(amount) || !grown.Equal(extra) || !burnt.Equal(slash) || !rec2.DelegateAmount.Equal(rec.DelegateAmount.Add(extra)) {
+	if !paid.Equal(amount) || !r.same(extra, grown) || !burnt.Equal(slash) || !rec2.DelegateAmount.Equal(rec.DelegateAmount.Add(extra)) {
 		r.res.Violate("C13/add-delegate-accounting", "add-delegate %s (penalty %s): oracle paid %s, stake grew by %s (expected %s), supply burnt %s, recorded stake %s -> %s",
 			amount, slash, paid, grown, extra, burnt, rec.DelegateAmount, rec2.DelegateAmount)
 	}
@@ -530,7 +585,8 @@ func (r *c13Run) unbond(i int, final bool) {
 		return
 	}
 	liquid, delegated, unbonding := r.stakeOf(o)
-	matured := delegated.IsZero() && unbonding.IsZero()
+	// a share residue worth at most the rounding dust may stay delegated after the module undelegated "all tokens"
+	matured := r.same(delegated, sdkmath.ZeroInt()) && unbonding.IsZero()
 	slash := rec.GetSlashAmount(r.b.K.GetSlashFraction(c.Ctx))
 	balBefore := c.Balance(c.Ctx, o.Oracle.Acc(), fxtypes.DefaultDenom)
 	supplyBefore := c.Supply(c.Ctx, fxtypes.DefaultDenom)
